@@ -16,6 +16,7 @@ let () =
            | "A" :: rest -> (try Cmds.run_a rest with Syntax.Bad m -> "BADCASE " ^ m)
            | "X" :: rest -> (try Cmds.run_x rest with Syntax.Bad m -> "BADCASE " ^ m)
            | "Y" :: rest -> (try Cmds.run_y rest with Syntax.Bad m -> "BADCASE " ^ m)
+           | "D" :: rest -> (try Derive_cmd.run rest with Syntax.Bad m -> "BADCASE " ^ m)
            | c :: _ -> "BADCMD " ^ c
            | [] -> "BADCMD"
          in
